@@ -161,7 +161,22 @@ func c16EndToEnd(r *core.Run, idx int, rng *rand.Rand) {
 		c.SPD.ACS = append(c.SPD.ACS, spsim.ACS{Binding: e.Binding, Location: e.Location, Index: e.Index, IsDefault: e.IsDefault})
 	}
 	c.Req.ACSURL, c.Req.ACSIndex = "", ""
+	nameLocation := rng.Intn(3) == 0
 	c.Req.ProtocolBinding = c16Requested[rng.Intn(len(c16Requested))]
+	if nameLocation && c.Req.ProtocolBinding != "" {
+		// the request also names the location of one of the entries registered with the binding it asks for (a consistent
+		// pair): the statement makes the choice a function of the metadata and the requested binding alone
+		var same []string
+		for _, a := range c.SPD.ACS {
+			if a.Binding == c.Req.ProtocolBinding {
+				same = append(same, a.Location)
+			}
+		}
+		if len(same) > 0 {
+			c.Req.ACSURL = same[rng.Intn(len(same))]
+			r.Count("end_to_end_requests_naming_a_registered_location", 1)
+		}
+	}
 	_, call := c.run(rng, nil)
 	r.Eval(fmt.Sprintf("e2e|%v|%s", vs, c.Req.ProtocolBinding))
 	acc := c16Acceptable(vs, c.Req.ProtocolBinding)
